@@ -24,7 +24,7 @@ func init() {
 			"a chunk whose true CRC-32 is 0 (p=2^-32) cannot be validated; not generated deliberately",
 			"the non-indexed iterator offers no validation switch and is out of scope",
 		},
-		batches: map[string]int{"quick": 48, "thorough": 480},
+		batches: map[string]int{"quick": 48, "thorough": 96},
 		checks:  map[string]int{"quick": 3, "thorough": 10},
 	}})
 }
